@@ -46,6 +46,14 @@ def slice_with_bool_dask_array(x, index):
 
     out_index = [slice(None) if isinstance(ind, Array) and ind.dtype == bool else ind for ind in index]
 
+    # The result has one block of unknown size per block of the grid advertised
+    # now, and no chunk sizes to restore that grid from afterwards; pin the
+    # layout of x and of the masks so a rewrite beneath them (e.g. a native
+    # sliding-window kernel keeping its input's own chunks) cannot move the
+    # result to another grid.
+    x = x.freeze_chunks()
+    index = tuple(ind.freeze_chunks() if isinstance(ind, Array) and ind.dtype == bool else ind for ind in index)
+
     # Case 1: Full-dimensional boolean mask
     if len(index) == 1 and index[0].ndim == x.ndim:
         if not np.isnan(x.shape).any() and not np.isnan(index[0].shape).any():
